@@ -21,28 +21,32 @@ Definition ex_doc : node sigT :=
 
 Definition wf_inst := wf_node sigT sig_show sig_parse C10.Model.validate_member C10.Model.validate_interface C10.Model.validate_property.
 
-Example ex_doc_wf : wf_inst ex_doc /\ ~ Known_C34 sigT ex_doc.
-Proof.
-  split.
-  - unfold wf_inst, ex_doc. cbn [wf_node]. repeat (split || constructor); vm_compute; reflexivity.
-  - unfold Known_C34. vm_compute. discriminate.
-Qed.
+Example ex_doc_wf : wf_inst ex_doc.
+Proof. unfold wf_inst, ex_doc. cbn [wf_node]. repeat (split || constructor); vm_compute; reflexivity. Qed.
 
 Example ex_doc_roundtrip : rd (wr ex_doc) = Ok ex_doc.
 Proof. vm_compute. reflexivity. Qed.
 
 Example ex_doc_text :
   to_writer sigT sig_show (Node sigT (Some (B "/")) [mkIface sigT (B "a.b") [] [] [] [mkAnn (B "k") (B "<&>""'")]] [Node sigT None [] []]) =
-  B "<Node name=""/""><interface name=""a.b""><annotation name=""k"" value=""&lt;&amp;&gt;&quot;'""/></interface><node name=""""/></Node>".
+  B "<Node name=""/""><interface name=""a.b""><annotation name=""k"" value=""&lt;&amp;&gt;&quot;'""/></interface><node/></Node>".
 Proof. vm_compute. reflexivity. Qed.
 
 (* reading through unescape: the escaped infoset of the written document reads back *)
 Example ex_doc_text_level : rd_text_dec unescape (enc_tree escape (wr ex_doc)) = Ok ex_doc.
 Proof. vm_compute. reflexivity. Qed.
 
-(* the two ways an absent optional fails, on the instantiated model *)
-Example ex_none_name : rd (wr (Node sigT None [] [])) = Ok (Node sigT (Some []) [] []).
-Proof. vm_compute. reflexivity. Qed.
-Example ex_none_direction :
-  rd (wr (Node sigT (Some (B "/")) [mkIface sigT (B "a.b") [] [] [mkSignal sigT (B "S") [mkArg sigT (Some (B "x")) s_i None []] []] []] [])) = Err EXml.
-Proof. vm_compute. reflexivity. Qed.
+(* absent optionals (the former known finding none_option, fixed in 34e4ce52): nothing is written for them
+   and the document reads back *)
+Definition ex_absent : node sigT :=
+  Node sigT None
+    [mkIface sigT (B "a.b") [mkMethod sigT (B "M") [mkArg sigT None s_i (Some DIn) []] []] []
+       [mkSignal sigT (B "S") [mkArg sigT (Some (B "x")) s_i None []; mkArg sigT None s_asv None []] []] []]
+    [Node sigT None [] []].
+Example ex_absent_wf : wf_inst ex_absent.
+Proof. unfold wf_inst, ex_absent. cbn [wf_node]. repeat (split || constructor); vm_compute; reflexivity. Qed.
+Example ex_absent_roundtrip :
+  rd (wr ex_absent) = Ok ex_absent /\
+  to_writer sigT sig_show ex_absent =
+  B "<Node><interface name=""a.b""><method name=""M""><arg type=""i"" direction=""in""/></method><signal name=""S""><arg name=""x"" type=""i""/><arg type=""aa{sv}""/></signal></interface><node/></Node>".
+Proof. split; vm_compute; reflexivity. Qed.
